@@ -46,6 +46,8 @@ func runC03(c *core.Ctx) *core.Outcome {
 	cfg.FinishAlways = true // keep the stored session in step with the model when a render is refused
 	prof := c03Profile(cfg.FlagCount)
 	prof.PreludeIncmp = t.Chance(1, 4)
+	prof.LongMenus = t.Chance(1, 3) // menus of 14-30 lines and more
+	cfg.Debug = t.Chance(1, 4)      // an attached debugger looks, it does not touch
 	a := app.Generate(t, prof)
 	if err := a.Validate(); err != nil {
 		panic("generator produced ill-formed app: " + err.Error())
